@@ -177,9 +177,16 @@ func c19Observe(dir string, keys []string) (map[string]string, string) {
 		}
 	}
 	entErr := ""
-	if _, err := db.NewDatabaseWithStorage(st).Entities(); err != nil {
+	es, err := db.NewDatabaseWithStorage(st).Entities()
+	if err != nil {
 		entErr = err.Error()
 	}
+	var names []string
+	for _, e := range es {
+		names = append(names, fmt.Sprintf("%q=%x", e.Name, e.PublicKey))
+	}
+	sort.Strings(names)
+	out["<entities>"] = strings.Join(names, ";")
 	return out, entErr
 }
 
@@ -241,6 +248,7 @@ func c19Scenario1(c *fw.Ctx, sc c19Scenario, onlyKill int) {
 	}
 	sort.Strings(keys)
 	post, postEntErr := c19Observe(dir, keys)
+	keys = append(keys, "<entities>")             // the listed entity set must be the previous or the new one as well
 	pre, _ = func() (map[string]string, string) { // pre over the full key set
 		if err := c19Prepare(c, sc, dir); err != nil {
 			return nil, err.Error()
